@@ -101,13 +101,15 @@ func specR16(x float64) funit.Int16 {
 //@ loop 2 back-when [C06.path.rlineto] opIs(prev(code), 5) && prev(len(stack)) >= 2 ==> lineBy(res, prev(len(res.Cmds)), prev(posX), prev(posY), prev(stack[0]), prev(stack[1]), posX, posY, isClosed)
 //@ loop 2 back-when [C06.path.hlineto] opIs(prev(code), 6) && prev(len(stack)) >= 1 ==> lineBy(res, prev(len(res.Cmds)), prev(posX), prev(posY), prev(stack[0]), 0, posX, posY, isClosed)
 //@ loop 2 back-when [C06.path.vlineto] opIs(prev(code), 7) && prev(len(stack)) >= 1 ==> lineBy(res, prev(len(res.Cmds)), prev(posX), prev(posY), 0, prev(stack[0]), posX, posY, isClosed)
-//@ loop 2 back-when [C06.path.rmoveto] opIs(prev(code), 21) && prev(len(stack)) >= 2 ==> moveBy(res, prev(len(res.Cmds)), prev(isClosed), prev(posX), prev(posY), prev(stack[0]), prev(stack[1]), posX, posY, isClosed)
-//@ loop 2 back-when [C06.path.hmoveto] opIs(prev(code), 22) && prev(len(stack)) >= 1 ==> moveBy(res, prev(len(res.Cmds)), prev(isClosed), prev(posX), prev(posY), prev(stack[0]), 0, posX, posY, isClosed)
-//@ loop 2 back-when [C06.path.vmoveto] opIs(prev(code), 4) && prev(len(stack)) >= 1 ==> moveBy(res, prev(len(res.Cmds)), prev(isClosed), prev(posX), prev(posY), 0, prev(stack[0]), posX, posY, isClosed)
+//@ loop 2 back-when [C06.path.rmoveto] opIs(prev(code), 21) && prev(len(stack)) >= 2 ==> moveBy(res, prev(len(res.Cmds)), prev(isClosed) || prev(inFlex), prev(posX), prev(posY), prev(stack[0]), prev(stack[1]), posX, posY, isClosed || inFlex)
+//@ loop 2 back-when [C06.path.hmoveto] opIs(prev(code), 22) && prev(len(stack)) >= 1 ==> moveBy(res, prev(len(res.Cmds)), prev(isClosed) || prev(inFlex), prev(posX), prev(posY), prev(stack[0]), 0, posX, posY, isClosed || inFlex)
+//@ loop 2 back-when [C06.path.vmoveto] opIs(prev(code), 4) && prev(len(stack)) >= 1 ==> moveBy(res, prev(len(res.Cmds)), prev(isClosed) || prev(inFlex), prev(posX), prev(posY), 0, prev(stack[0]), posX, posY, isClosed || inFlex)
 //@ loop 2 back-when [C06.path.rrcurveto] opIs(prev(code), 8) && prev(len(stack)) >= 6 ==> curveBy(res, prev(len(res.Cmds)), prev(posX), prev(posY), prev(stack[0]), prev(stack[1]), prev(stack[2]), prev(stack[3]), prev(stack[4]), prev(stack[5]), posX, posY)
 //@ loop 2 back-when [C06.path.hvcurveto] opIs(prev(code), 31) && prev(len(stack)) >= 4 ==> curveBy(res, prev(len(res.Cmds)), prev(posX), prev(posY), prev(stack[0]), 0, prev(stack[1]), prev(stack[2]), 0, prev(stack[3]), posX, posY)
 //@ loop 2 back-when [C06.path.vhcurveto] opIs(prev(code), 30) && prev(len(stack)) >= 4 ==> curveBy(res, prev(len(res.Cmds)), prev(posX), prev(posY), 0, prev(stack[0]), prev(stack[1]), prev(stack[2]), prev(stack[3]), 0, posX, posY)
 //@ loop 2 back-when [C06.path.closepath] opIs(prev(code), 9) ==> oneCmd(res, prev(len(res.Cmds)), OpClosePath) && isClosed && posX == prev(posX) && posY == prev(posY)
+//@ loop 2 back-when [C06.flex.noclose] prev(inFlex) && prev(len(code)) >= 1 && (prev(code[0]) == 21 || prev(code[0]) == 22 || prev(code[0]) == 4) && prev(len(stack)) >= 2 ==> oneCmd(res, prev(len(res.Cmds)), OpMoveTo) && isClosed == prev(isClosed) && inFlex
+//@ loop 2 back-when [C06.flex.mode] prev(len(code)) >= 1 && prev(code[0]) != 12 ==> inFlex == prev(inFlex)
 //@ loop 2 back-when [C06.path.frame] forall k :: 0 <= k && k < prev(len(res.Cmds)) && k < len(res.Cmds) ==> res.Cmds[k] == prev(res.Cmds[k])
 //@ loop 2 back-when [C06.sb.hsbw] opIs(prev(code), 13) && prev(len(stack)) >= 2 ==> posX == prev(stack[0]) && posY == 0 && LsbX == specR16(prev(stack[0])) && LsbY == 0 && res.WidthX == prev(stack[1]) && res.WidthY == 0 && len(res.Cmds) == prev(len(res.Cmds))
 //@ loop 2 back-when [C06.sb.sbw] escIs(prev(code), 7) && prev(len(stack)) >= 4 ==> posX == prev(stack[0]) && posY == prev(stack[1]) && LsbX == specR16(prev(stack[0])) && LsbY == specR16(prev(stack[1])) && res.WidthX == prev(stack[2]) && res.WidthY == prev(stack[3]) && len(res.Cmds) == prev(len(res.Cmds))
